@@ -96,8 +96,9 @@ theorem clientRecvMany_cinv (cfg : Cfg) (sid : Nat) : ∀ (ds : List Bytes) (st 
   | d :: ds, st, h, c => by
     simp only [clientRecvMany]
     split
-    · exact c
-    · split
+    · exact clientRecvMany_cinv cfg sid ds _ h c
+    · unfold touchClient
+      split
       · exact clientRecvMany_cinv cfg sid ds _ h c
       · rename_i s hs
         exact clientRecvMany_cinv cfg sid ds _ (InvC.touch h hs rfl rfl) (cinv_touch st c sid s _ hs h)
